@@ -1,6 +1,7 @@
 import CCV.Drv.Util
 import CCV.Drv.C13
 import CCV.Model.TypeInfer
+import CCV.Model.EvalOps
 namespace CCV.Drv.C09
 open CCV CCV.Drv CCV.TV CCV.TI
 
@@ -16,7 +17,10 @@ open CCV CCV.Drv CCV.TV CCV.TI
   and the parameterless `Add Subtract Multiply MixedMultiply Dot Matmul NOP A2B CreateTuple VectorGet Zip
   ArrayToVector VectorToArray CuckooHash InversePermutation CuckooToPermutation SegmentCumSum Print Assert`.
   Further requests: `bcast <s1> <s2>` (`broadcast_shapes`), `slice <shape> <k> el…` (`get_slice_shape`),
-  `sidx <shape> <index> <k> el…` (`slice_index`). -/
+  `sidx <shape> <index> <k> el…` (`slice_index`),
+  `evalop <op> <k> <type>… <value>…(k values)` (`EvalOps.evalOp`, one node of `SimpleEvaluator::evaluate_node`)
+  → `ok <value>` | `ERR` | `UNCOVERED` (operation outside the covered set); value encoding:
+  `r:<residues>` (scalar / array, `r:_` = empty) | `l:<n>` V… (vector / tuple). -/
 
 def parseOptInt? (s : String) : Option (Option Int) :=
   if s == "N" then some none else (parseInt? s).map some
@@ -122,7 +126,42 @@ def showTyE : Except String Ty → String
   | .ok t => "ok " ++ C13.showTy t
   | .error _ => "ERR"
 
+/-- value of `evalop`: `r:<residues>` | `l:<n>` V… -/
+def parseEV : Nat → List String → Option (EvalOps.EV × List String)
+  | 0, _ => none
+  | fuel + 1, tok :: rest =>
+    match tok.splitOn ":" with
+    | ["r", xs] => (parseNatList? xs).map (fun xs => (.arr xs, rest))
+    | ["l", k] => (parseNat? k).bind (fun k => (many fuel k rest).map (fun (vs, r) => (.vec vs, r)))
+    | _ => none
+  | _, [] => none
+where
+  many (fuel : Nat) : Nat → List String → Option (List EvalOps.EV × List String)
+    | 0, rest => some ([], rest)
+    | k + 1, rest =>
+      match parseEV fuel rest with
+      | some (v, rest) => (many fuel k rest).map (fun (vs, r) => (v :: vs, r))
+      | none => none
+
+partial def showEV : EvalOps.EV → String
+  | .arr xs => s!"r:{showList xs}"
+  | .vec vs => " ".intercalate (s!"l:{vs.length}" :: vs.map showEV)
+
+def showEVE : Except String EvalOps.EV → String
+  | .ok v => "ok " ++ showEV v
+  | .error e => if e.startsWith "evalOp:" then "UNCOVERED" else "ERR"
+
 def handle : List String → String
+  | "evalop" :: toks =>
+    match parseOp? toks with
+    | some (op, rest) =>
+      match parseTys? rest with
+      | some (tys, rest) =>
+        match parseEV.many (rest.length + 1) tys.length rest with
+        | some (vs, []) => showEVE (EvalOps.evalOp op tys vs)
+        | _ => "BAD-OP"
+      | none => "BAD-OP"
+    | none => "BAD-OP"
   | "infer" :: toks =>
     match parseOp? toks with
     | some (op, rest) =>
